@@ -53,6 +53,11 @@ def generate(rng, tier, idx):
         ov['sort'] = False
     edits = []
     pk = roles['package_dirs']
+    for d in roles.get('ebuildless', []):
+        if rng.random() < 0.7:
+            # the package gets its first ebuild between create and update
+            edits.append({'m': 'add', 'p': '%s/%s-%d.ebuild' % (d, os.path.basename(d), rng.randrange(1, 9)),
+                          'k': 'file', 'c': 'first ebuild', 'tag': 'EBUILD'})
     for _ in range(rng.choice([0, 1, 2, 3])):
         k = rng.choice(['add-ebuild', 'add-aux', 'modify', 'del', 'add-package', 'add-eclass'])
         if k == 'add-ebuild' and pk:
@@ -217,7 +222,13 @@ def check_policy(w, sc, roles, what):
             unc = len(G.decompress(w.read(p), G.comp_of(p)))
             comp = G.comp_of(p)
             if prof == 'old-ebuild' and os.path.dirname(p) in roles['package_dirs']:
-                if comp is not None:
+                try:
+                    has_ebuild = any(n_.endswith('.ebuild') for n_ in _o['os.listdir'](os.path.join(w.root, os.path.dirname(p))))
+                except OSError:
+                    has_ebuild = True
+                if not has_ebuild:
+                    pass      # a package directory without any ebuild: the statement does not say (don't-care)
+                elif comp is not None:
                     vs.append(viol('policy.package-manifest-compressed', '%s: %s is compressed under old-ebuild' % (what, p), sig='pkg'))
             else:
                 if (unc >= W) != (comp is not None):
